@@ -383,6 +383,7 @@ def run(ctx):
     # --- whole executions (operation sequences, write side, server loop with end reasons, both directions) ---
     _run_client_sequences(ctx, variants)
     _run_write_side(ctx, variants)
+    _run_flow_sequences(ctx, variants)
     _run_server_sequences(ctx, _srv)
     _run_exchange(ctx, _srv, variants)
     _run_real_sockets(ctx)
@@ -546,6 +547,25 @@ class _CountWriter(MemWriter):
         self.close_calls += 1
         super().close()
 
+    # flow control: while `stalled`, drain() does not return (the peer does not read, the writer is above its high-water mark);
+    # what was handed to write() stays queued and counts as written (it goes out when the peer reads again)
+    stalled = False
+    _resumed = None
+
+    def stall(self):
+        self.stalled = True
+        self._resumed = asyncio.Event()
+
+    def resume(self):
+        self.stalled = False
+        if self._resumed is not None:
+            self._resumed.set()
+
+    async def drain(self):
+        while self.stalled:
+            await self._resumed.wait()
+        await super().drain()
+
 
 def _res(d):
     return "eos" if d == b"" else "msg " + d.hex()
@@ -597,10 +617,19 @@ async def _client_seq(cls, scheme, ops):
             elif op[0] == "eof":
                 reader.feed_eof()
                 res.append("ok")
+            elif op[0] == "stall":
+                writer.stall()
+                res.append("ok")
+            elif op[0] == "resume":
+                writer.resume()
+                res.append("ok")
             elif op[0] == "write":
                 try:
                     n = await tr.write(op[1], timeout=1.0)
                     res.append(f"wrote {n} {hx(writer.data[before:])}")
+                except (TimeoutError, asyncio.TimeoutError) as e:
+                    # under flow control the write times out in drain(); the line is queued
+                    res.append(f"{'write-timeout' if writer.stalled else 'write-refused:TimeoutError'} {hx(writer.data[before:])}")
                 except Exception as e:  # noqa: BLE001 - a message that cannot be written is a delivery failure
                     res.append(f"write-refused:{type(e).__name__} {hx(writer.data[before:])}")
             elif op[0] == "request":
@@ -613,7 +642,8 @@ async def _client_seq(cls, scheme, ops):
                         d = await tr.request(op[1], timeout=op[2])
                     r = _res(d)
                 except (TimeoutError, asyncio.TimeoutError):
-                    r = "pending"
+                    # on a stalled writer the request cannot get past its write half (drain() blocks): it fails there
+                    r = "write-timeout" if writer.stalled else "pending"
                 except Exception as e:  # noqa: BLE001
                     r = "bad" if len(writer.data) > before else f"write-refused:{type(e).__name__}"
                 res.append(f"{hx(writer.data[before:])} {r}")
@@ -644,8 +674,8 @@ def _seq_lines(ops):
             lines.append(f"{op[0]} {hx(op[1])}")
         elif op[0] == "eof":
             lines.append("eof")
-        elif op[0] == "close":
-            lines.append("close")
+        elif op[0] in ("close", "stall", "resume"):
+            lines.append(op[0])
         else:
             lines.append("read")
     return lines
@@ -668,6 +698,15 @@ def _seq_key(ops, i, impl, model):
         ir, mr = (iw[-2] if iw[-2:-1] == ["msg"] else iw[-1]), (mw[-2] if mw[-2:-1] == ["msg"] else mw[-1])
         if op == "request" and iw[0] != mw[0]:
             return "lines-client-seq:request-wrote-other-bytes"
+        if mr == "write-timeout":
+            return "lines-client-seq:request-on-stalled-writer-returned:" + ir
+        st, failed_before = False, False
+        for o in ops[:i]:
+            st = True if o[0] == "stall" else False if o[0] == "resume" else st
+            failed_before = failed_before or (st and o[0] in ("write", "request"))
+        if failed_before:
+            # a read after an exchange whose write half failed under flow control
+            return f"lines-client-seq:after-failed-write-half:{mr}-vs-{ir}"
         if eof_before and mr == "eos" and ir == "msg":
             return "lines-client:unterminated-tail-at-eof-returned-as-message"
         if mr == "pending":
@@ -813,6 +852,54 @@ def _run_client_sequences(ctx, variants):
             scripts.append(("seeded-seq", cls, scheme, ops))
     impl, _models = _run_scripts(ctx, scripts, "client-seq", "LinesTransportMixin.read/write, BaseTransport.request/close")
     ctx.sample({"scheme": scripts[40][2], "ops": _ops_json(scripts[40][3]), "impl": impl[40]})
+
+
+def _run_flow_sequences(ctx, variants):
+    """the write side under flow control (Model/LinesExec fstep / frun): the writer is a scripted StreamWriter whose drain() blocks while
+    `stalled` (peer not reading, writer above its high-water mark).  A write() / request() issued then fails in its WRITE half (TimeoutError
+    from the transport's timeout, or the caller's own deadline cancelling it) on an otherwise healthy stream, while messages from the peer
+    are already buffered, arrive during the stall or arrive later; afterwards the reads must return exactly the peer's messages, in order."""
+    syms = [("feed", b"3e00\n"), ("feed", b"1001\n7f\n"), ("feed", b"22"), ("read", 0.25), ("write", b"\x3e\x00"),
+            ("request", b"\x10\x01", 0.25), ("request", b"\x11", 0.25), ("stall",), ("resume",)]
+    L = ctx.pick(4, 5)
+    frontier, seqs = [[]], []
+    for _ in range(L):
+        nxt = [s + [sym] for s in frontier for sym in syms]
+        seqs += nxt
+        frontier = nxt
+    scripts = []
+    for k, s in enumerate(seqs):
+        if not any(o[0] == "stall" for o in s):
+            continue  # covered by _run_client_sequences
+        cls, scheme = variants[k % 2]
+        scripts.append(("flow-exhaustive", cls, scheme, s + [("resume",), ("feed", b"f190\n"), ("read", 0.25), ("read", 0.25), ("read", 0.25), ("read", 0.25)]))
+    ctx.exhaustive_parts.append(f"write side under flow control: every sequence of length <= {L} over feed x3 / read / write / request (transport timeout) / "
+                                f"request (caller's deadline) / stall / resume that stalls at least once, each followed by resume, a further "
+                                f"message and 4 reads: {len(scripts)} scripts")
+    rng = ctx.rng
+    for _ in range(ctx.pick(80, 800)):
+        ms = _msgs(rng, rng.randint(1, 6), ctx.pick(200, 4095))
+        stream = b"".join(m.hex().encode() + b"\n" for m in ms)
+        ops, stalled = [], False
+        for c in _splits(rng, stream, "multi"):
+            ops.append(("feed", c))
+            for _ in range(rng.choice([0, 1, 1, 2, 3])):
+                k = rng.random()
+                if k < 0.3:
+                    ops.append(("read", rng.choice([0.1, 1.0])))
+                elif k < 0.4:
+                    ops.append(("write", _msgs(rng, 1, 40)[0]))
+                elif k < 0.7:
+                    ops.append(("request", _msgs(rng, 1, 40)[0], rng.choice([0.05, 0.2, 2.0])))
+                else:
+                    stalled = not stalled
+                    ops.append(("stall",) if stalled else ("resume",))
+        if stalled:
+            ops.append(("resume",))
+        ops += [("read", 0.2)] * (len(ms) + 1)
+        for cls, scheme in variants:
+            scripts.append(("flow-seeded", cls, scheme, ops))
+    _run_scripts(ctx, scripts, "client-flow", "BaseTransport.request / request_unsafe, LinesTransportMixin.write/read")
 
 
 def _run_write_side(ctx, variants):
@@ -1364,8 +1451,10 @@ _CLAUSES = [
     (("lines-client:unterminated-tail-at-eof", "lines-client:eos-vs", "lines-client-seq:eos-vs", "lines-client:msg-vs-eos", "lines-client-seq:msg-vs-eos"),
      "end-of-stream is distinguishable from a message (an unterminated tail at EOF is not a message; a complete line is not end-of-stream)"),
     (("lines-client:blocked-read-returned", "lines-client-seq:blocked-read-returned", "lines-client-seq:wrong-message:after-earlier-read",
-      "lines-client:msg-vs-pending", "lines-client-seq:msg-vs-pending", "lines-client-seq:mutex-left-locked", "lines-exchange:mutex-left-locked"),
-     "a read that times out consumes nothing, so the next read returns the complete next message"),
+      "lines-client:msg-vs-pending", "lines-client-seq:msg-vs-pending", "lines-client-seq:mutex-left-locked", "lines-exchange:mutex-left-locked",
+      "lines-client-seq:after-failed-write-half", "lines-client-seq:request-on-stalled-writer-returned"),
+     "a read (an exchange) that times out consumes nothing, so the next read returns the complete next message; the peer's messages are "
+     "delivered in order, one per read"),
     (("lines-client:write-bytes-differ", "lines-client-seq:write", "lines-client-seq:request-wrote-other-bytes", "lines-exchange:request-bytes-differ"),
      "any sequence of messages of any content and length (1..4095 bytes) is delivered to the peer as exactly that sequence of byte strings (write emits hex + newline)"),
     (("lines-real-socket",),
